@@ -134,12 +134,14 @@ class StartWaitingWorkflowsHandler(StabilizeHandler[StartWaitingWorkflows]):
                             execution_id=execution.id,
                         )
                     )
-
-                if self.event_recorder:
-                    self.set_event_context(execution.id)
-                    self.event_recorder.record_workflow_started(
-                        execution, source_handler="StartWaitingWorkflowsHandler"
-                    )
+                    # Recorded inside the transaction (same commit as the
+                    # StartWorkflow message): the events of the promoted run
+                    # can never precede this one in the log.
+                    if self.event_recorder:
+                        self.set_event_context(execution.id)
+                        self.event_recorder.record_workflow_started(
+                            execution, source_handler="StartWaitingWorkflowsHandler"
+                        )
             elif message.purge_queue:
                 # Cancel remaining
                 logger.info("Purging waiting execution %s", execution.id)
